@@ -248,24 +248,9 @@ impl TransactionManager {
             )
         };
 
-        // Check for write-write conflicts with other committed transactions
-        for (other_tx, other_info) in txns.iter() {
-            if *other_tx == tx_id {
-                continue;
-            }
-            if other_info.state == TxState::Committed {
-                // Check if any of our writes conflict with their writes
-                for entity in &our_write_set {
-                    if other_info.write_set.contains(entity) {
-                        return Err(Error::Transaction(TransactionError::WriteConflict(
-                            format!("Write-write conflict on entity {:?}", entity),
-                        )));
-                    }
-                }
-            }
-        }
-
-        // Also check against recently committed transactions
+        // Check for write-write conflicts with transactions that committed after we
+        // started. A writer that committed before our snapshot was taken is not a
+        // conflict, however long its entry is retained before `gc` removes it.
         for (other_tx, commit_epoch) in committed.iter() {
             if *other_tx != tx_id && commit_epoch.as_u64() > our_start_epoch.as_u64() {
                 // Check if that transaction wrote to any of our entities
